@@ -24,9 +24,15 @@ _CASES = None
 
 def build_cases(tier, seed):
     global _CASES
-    _CASES = common.rank_profiles(tier, rational=True, extra4=(tier != "quick"))
+    _CASES = common.rank_profiles(tier, rational=True, extra4=False)
+    if tier != "quick":
+        # four candidates: every 8th profile (Alaska alone has 240 configurations on four candidates, each compared with two
+        # separately explored component elections)
+        from engine import families as _f
+
+        _CASES += [("int", c) for c in _f.prof_list(_f.rank_family(4), 2, (1, 2), _f.cands(4))[::8]]
     meta = {
-        "family": common.family_text(tier) + " x (IRV vs STV m=1; SNTV vs Plurality; SequentialRCV vs STV with a harness-written "
+        "family": common.family_text(tier, extra4=False) + ("" if tier == "quick" else " + every 8th of Prof(Rank(4),2,{1,2})") + " x (IRV vs STV m=1; SNTV vs Plurality; SequentialRCV vs STV with a harness-written "
                   "full-weight transfer; TopTwo vs reference composition; Alaska vs real Plurality stage + separately constructed real STV) "
                   "x all configurations x all RNG paths",
         "assumptions": ["aliases consume the same sequence of draws as their counterpart (compared under identical choice vectors)",
